@@ -167,8 +167,9 @@ var Layouts = []PDULayout{
 	{Dir: "smgp/smgp30", Pkg: "smgp30", Type: "DeliverResp", Hdr: "smgp", Cmd: "smgp.CommandDeliverResp", CmdVal: 0x80000003, InDispatcher: true,
 		Fields: []Fld{f("MsgID", "hex", 10), f("Result", "u32")}},
 	{Dir: "smgp/smgp30", Pkg: "smgp30", Type: "ActiveTest", Hdr: "smgp", Cmd: "smgp.CommandActiveTest", CmdVal: 0x00000004, Resp: "ActiveTestResp", RespCmd: "smgp.CommandActiveTestResp", InDispatcher: true},
-	{Dir: "smgp/smgp30", Pkg: "smgp30", Type: "ActiveTestResp", Hdr: "smgp", Cmd: "smgp.CommandActiveTestResp", CmdVal: 0x80000004, InDispatcher: true,
-		Fields: []Fld{f("Reserved", "u8")}},
+	// SMGP 3.0.3 section 5.2.2.5.2: "Active_Test_Resp 无消息体" (no message body). The library's struct carries a
+	// one-octet Reserved body that the specification does not have (known finding, C02).
+	{Dir: "smgp/smgp30", Pkg: "smgp30", Type: "ActiveTestResp", Hdr: "smgp", Cmd: "smgp.CommandActiveTestResp", CmdVal: 0x80000004, InDispatcher: true},
 	{Dir: "smgp/smgp30", Pkg: "smgp30", Type: "Exit", Hdr: "smgp", Cmd: "smgp.CommandExit", CmdVal: 0x00000006, Resp: "ExitResp", RespCmd: "smgp.CommandExitResp", InDispatcher: true},
 	{Dir: "smgp/smgp30", Pkg: "smgp30", Type: "ExitResp", Hdr: "smgp", Cmd: "smgp.CommandExitResp", CmdVal: 0x80000006, InDispatcher: true},
 
